@@ -1,0 +1,93 @@
+//go:build verif
+
+package httpcache
+
+import "time"
+
+// Verification hooks (build tag "verif"): read-only views and an exported wrapper over
+// the pattern index. Nothing here is compiled into the default build.
+
+// VerifPeek returns the cached response stored under key and its remaining TTL.
+func (m *Middleware) VerifPeek(key string) (*Response, time.Duration, bool) {
+	resp, _, _, ok := m.cache.VerifPeek(key)
+	if !ok {
+		return nil, 0, false
+	}
+	_, exp, _, _ := m.cache.VerifPeek(key)
+	if exp == 0 {
+		return resp, -1, true
+	}
+	return resp, time.Duration(exp - m.cache.VerifNow()), true
+}
+
+// VerifCachedKeys lists the keys currently resident in the backing cache.
+func (m *Middleware) VerifCachedKeys() []string {
+	var out []string
+	for i := 0; i < m.cache.VerifShards(); i++ {
+		out = append(out, m.cache.VerifShardKeys(i)...)
+	}
+	return out
+}
+
+// VerifIndexKeys lists every key reachable through the path index.
+func (m *Middleware) VerifIndexKeys() []string { return m.patternIdx.getMatchingKeys("/*") }
+
+// VerifFlushRemovals delivers staged removal notifications of the backing cache synchronously.
+func (m *Middleware) VerifFlushRemovals() { m.cache.VerifFlushRemovals() }
+
+// VerifStoreIndex / VerifStoreSet run the two halves of store separately so a harness can
+// interleave them with other operations (the index entry is added before the cache write).
+func (m *Middleware) VerifStoreIndex(key string, resp *Response) {
+	if path := m.pathExtract(key); path != "" {
+		m.patternIdx.addKey(path, key, resp)
+	}
+}
+
+func (m *Middleware) VerifStoreSet(key string, resp *Response, ttl time.Duration) error {
+	if err := m.cache.Set(key, resp, ttl); err != nil {
+		if path := m.pathExtract(key); path != "" {
+			m.patternIdx.removeKeyByIdentity(path, key, resp)
+		}
+		return err
+	}
+	return nil
+}
+
+// VerifDeleteKey removes one key from the backing cache (as an eviction or expiry would).
+func (m *Middleware) VerifDeleteKey(key string) bool { return m.cache.Delete(key) }
+
+// VerifIndex is an exported wrapper over the pattern index.
+type VerifIndex struct {
+	pi  *patternIndex
+	ids map[int]*Response
+}
+
+func NewVerifIndex() *VerifIndex { return &VerifIndex{pi: newPatternIndex(), ids: map[int]*Response{}} }
+
+func (v *VerifIndex) id(i int) *Response {
+	if r, ok := v.ids[i]; ok {
+		return r
+	}
+	r := &Response{StatusCode: i}
+	v.ids[i] = r
+	return r
+}
+func (v *VerifIndex) Add(path, key string, id int)    { v.pi.addKey(path, key, v.id(id)) }
+func (v *VerifIndex) Remove(path, key string, id int) { v.pi.removeKeyByIdentity(path, key, v.id(id)) }
+func (v *VerifIndex) Match(pattern string) []string   { return v.pi.getMatchingKeys(pattern) }
+func (v *VerifIndex) Clear()                          { v.pi.clear() }
+
+// Nodes counts trie nodes (root included) so pruning can be observed.
+func (v *VerifIndex) Nodes() int {
+	v.pi.mu.RLock()
+	defer v.pi.mu.RUnlock()
+	var count func(n *patternNode) int
+	count = func(n *patternNode) int {
+		c := 1
+		for _, ch := range n.children {
+			c += count(ch)
+		}
+		return c
+	}
+	return count(v.pi.root)
+}
